@@ -28,6 +28,9 @@ def main():
             # not a verdict (the Rust validator in the harness uses exact decimals)
             if e.validator == "multipleOf" and isinstance(e.instance, float):
                 continue
+            # python's datetime has no year 0000 (RFC 3339 allows it): not a verdict
+            if e.validator == "format" and isinstance(e.instance, str) and e.instance.startswith("0000-"):
+                continue
             fails.append({"schema": p["schema"], "output": p["output"], "error": e.message[:200]})
     print(json.dumps({"pairs": len(pairs), "failures": fails[:20], "n_failures": len(fails)}))
 
